@@ -62,7 +62,7 @@ func (r *PathResult) addViolationRaw(kind, msg string) {
 
 // Shared is state shared by all paths of one harness exploration.
 type Shared struct {
-	mu      sync.Mutex
+	mu          sync.Mutex
 	Reached     map[string]bool
 	Declared    map[string]bool
 	Assumptions map[string]bool
